@@ -40,7 +40,9 @@ StartProportional(r, theta, m, TlRef, effProd) ==
 \* the proposed duty cycle D is the larger root of  D^2 - (s + e) D + s i0/imax = 0,
 \* s = speed / no-load speed, e = limit current / maximum current  (no square root needed to *check* a value)
 SLCResidual(D, s, e, m) == RAdd(RSub(RSq(D), RMul(RAdd(s, e), D)), RMul(s, RDiv(m.i0, m.imax)))
-SLCScale(D, s, e, m) == RAdd(RAdd(RSq(D), RAbs(RMul(RAdd(s, e), D))), RAbs(RMul(s, RDiv(m.i0, m.imax))))
+\* condition scale: D is a sum of terms of size |s| + |e| (it may cancel to ~0 when s + e < 0 and i0 = 0), so a rounding
+\* error of eps (|s| + |e|) in D moves the residual by about eps (|s| + |e|)^2
+SLCScale(D, s, e, m) == RAdd(RAdd(RSq(RAdd(RAbs(s), RAbs(e))), RSq(D)), RAbs(RMul(s, RDiv(m.i0, m.imax))))
 SLCDisc(s, e, m) == RSub(RSq(RAdd(s, e)), RMul("4", RMul(s, RDiv(m.i0, m.imax))))
 SLCIsValue(D, s, e, m, eps) ==
    /\ RLe(RAbs(SLCResidual(D, s, e, m)), RMul(eps, SLCScale(D, s, e, m)))
